@@ -10,7 +10,8 @@ Line-protocol driver over `QbiceVerif.Model.TinyLfu` (property C16).  One output
 Answers: the call's result, followed by ` ev k:b k:b …` = the questions the removal closure asked
 the listener during the call (b = 1 pinned / kept, 0 = evicted).  A panicking call answers `panic`
 (the reason goes to stderr as `panic-reason <line> <site>`); every later line up to the next `new`
-answers `dead`.  Malformed lines answer `bad-op`.  `--fix` runs the repaired model (F4).
+answers `dead`.  Malformed lines answer `bad-op`.  `--fix` runs the model with the repaired `Policy::unpin` (F4, = the code as it is now); `--fix-trim` adds the
+proposed repair of F15 (whole-region Poll trim).
 -/
 import QbiceVerif.Model.TinyLfu
 open QbiceVerif.TinyLfu
@@ -81,7 +82,7 @@ def releaseD (s : DState) (h : Nat) : DState × String :=
     ({ s with cache := t.cache, handles := s.handles.set! h none }, "ok")
   | _ => (s, "bad-op")
 
-def handle (fix : Bool) (st : Option DState) (line : String) : Option DState × String × Option Panic :=
+def handle (fix fixTrim : Bool) (st : Option DState) (line : String) : Option DState × String × Option Panic :=
   let ws := (line.trimAscii.toString.splitOn " ").filter (· ≠ "")
   match ws with
   | ["new", cap, strat, tk] =>
@@ -89,7 +90,7 @@ def handle (fix : Bool) (st : Option DState) (line : String) : Option DState × 
     | some c, s, t =>
       if c = 0 ∨ (s ≠ "P" ∧ s ≠ "N") ∨ (t ≠ "K" ∧ t ≠ "V") then (st, "bad-op", none) else
       let tok : Nat → Nat → Nat := if t = "K" then fun k _ => k else fun _ v => v
-      (some { cfg := Cfg.real c (s = "P") fix tok, cache := Cache.real c }, "ok", none)
+      (some { cfg := { Cfg.real c (s = "P") fix tok with fixTrim := fixTrim }, cache := Cache.real c }, "ok", none)
     | _, _, _ => (st, "bad-op", none)
   | ["hash", k] => match k.toNat? with
     | some k => (st, s!"hash {fxHash k}", none)
@@ -127,19 +128,19 @@ def handle (fix : Bool) (st : Option DState) (line : String) : Option DState × 
       | _, none => (st, "bad-op", none)
   | [] => (st, "bad-op", none)
 
-partial def loop (fix : Bool) (hin hout herr : IO.FS.Stream) (st : Option DState) (n : Nat) : IO Unit := do
+partial def loop (fix fixTrim : Bool) (hin hout herr : IO.FS.Stream) (st : Option DState) (n : Nat) : IO Unit := do
   let line ← hin.getLine
   if line.isEmpty then return
-  let (st, out, p) := handle fix st line
+  let (st, out, p) := handle fix fixTrim st line
   hout.putStrLn out
   match p with
   | some e => herr.putStrLn s!"panic-reason {n} {e.name}"
   | none => pure ()
-  loop fix hin hout herr st (n + 1)
+  loop fix fixTrim hin hout herr st (n + 1)
 
 def main (args : List String) : IO Unit := do
   let hin ← IO.getStdin
   let hout ← IO.getStdout
   let herr ← IO.getStderr
-  loop (args.contains "--fix") hin hout herr none 1
+  loop (args.contains "--fix") (args.contains "--fix-trim") hin hout herr none 1
   hout.flush
